@@ -959,6 +959,11 @@ fn gen_c08(cfg: &GenCfg, rng: &mut Rng, w: &mut dyn Write, kind: &str) {
             for _ in 0..5 {
                 writeln!(w, "show {}", rng.pick(&pool)).unwrap();
             }
+            // a model-count cache kept across the reorderings (they recycle node ids, so the
+            // manager must invalidate it: `Manager::reorder` bumps the collection counter)
+            for _ in 0..3 {
+                writeln!(w, "satcount {} {} nat cache=shared", rng.pick(&pool), n).unwrap();
+            }
             for j in 0..4 {
                 let name = format!("p{}_{}", s, j);
                 writeln!(w, "op {} {} {} {}", name, rng.pick(&BIN_OPS), rng.pick(&pool), rng.pick(&pool)).unwrap();
@@ -1530,6 +1535,30 @@ fn gen_bggc(cfg: &GenCfg, rng: &mut Rng, w: &mut dyn Write, kind: &str) {
 }
 
 fn generate(cfg: &GenCfg, rng: &mut Rng, w: &mut dyn Write) {
+    if cfg.extra.contains_key("dump-after-order") {
+        // for the store-level reordering model, which predicts the store (ids aside) right after a
+        // reordering, garbage included
+        let mut buf: Vec<u8> = Vec::new();
+        generate_inner(cfg, rng, &mut buf);
+        for line in String::from_utf8(buf).unwrap().lines() {
+            if line.starts_with("satcount ") {
+                continue; // not part of the store-level reordering protocol
+            }
+            if line.starts_with("order ") {
+                // the model tracks no garbage left behind by earlier operations
+                writeln!(w, "gc").unwrap();
+            }
+            writeln!(w, "{}", line).unwrap();
+            if line.starts_with("order ") {
+                writeln!(w, "dump").unwrap();
+            }
+        }
+    } else {
+        generate_inner(cfg, rng, w);
+    }
+}
+
+fn generate_inner(cfg: &GenCfg, rng: &mut Rng, w: &mut dyn Write) {
     let kind = cfg.extra.get("kind").map(|s| s.as_str()).unwrap_or("bdd").to_string();
     let suite = cfg.extra.get("suite").map(|s| s.as_str()).unwrap_or("c02").to_string();
     match suite.as_str() {
